@@ -31,7 +31,7 @@ type tcase struct {
 }
 
 func (tc tcase) wantCode() uint32 {
-	switch tc.Cause {
+	switch causeKind(tc.Cause) {
 	case "cancel":
 		return sys.ExitCodeContextCanceled
 	case "deadline":
@@ -45,7 +45,7 @@ func (tc tcase) wantCode() uint32 {
 // counts when the control finished.
 const (
 	deadlineD      = 60 * time.Millisecond // timeout of the deadline cause (the tick function waits for it: no timing assumption)
-	closedWatchdog = 20 * time.Second      // wait for the asynchronous close to become visible
+	closedWatchdog = 10 * time.Second      // wait for the asynchronous close to become visible
 	hangCPU        = 4 * time.Second       // differential watchdog: CPU time the process must have burnt after the control returned ...
 	hangWallMin    = 4 * time.Second       // ... and minimum wall-clock time, with the subject still running => hang
 	hangWallMax    = 300 * time.Second     // CPU budget not reached by then => inconclusive
@@ -125,16 +125,17 @@ func rtConfig(engine string) wazero.RuntimeConfig {
 }
 
 type tstate struct {
-	tc     tcase
-	prog   *program
-	res    *tres
-	ctx    context.Context
-	cancel context.CancelFunc
-	mod    api.Module // entry module once known
-	cap    int64
-	ctrl   atomic.Bool
-	want   uint32
-	seen   api.Module
+	tc      tcase
+	prog    *program
+	res     *tres
+	ctx     context.Context
+	cancel  context.CancelFunc
+	mod     api.Module // entry module once known
+	cap     int64
+	ctrl    atomic.Bool
+	want    uint32
+	seen    api.Module
+	cleanup func()
 }
 
 func (st *tstate) module(caller api.Module) api.Module {
@@ -148,10 +149,12 @@ func (st *tstate) module(caller api.Module) api.Module {
 // fire triggers the cause and returns only when it has certainly happened.
 func (st *tstate) fire(m api.Module) {
 	switch st.tc.Cause {
-	case "cancel":
-		st.cancel()
-	case "deadline":
-		<-st.ctx.Done()
+	default:
+		if causeKind(st.tc.Cause) == "cancel" {
+			st.cancel()
+		} else {
+			<-st.ctx.Done()
+		}
 	case "close":
 		done := make(chan struct{})
 		go func() {
@@ -364,18 +367,8 @@ func runTicked(tc tcase, keepWasm bool) *tres {
 	}
 	// the call's context is created right before the call starts (a deadline must not run out during set-up)
 	mkctx := func() {
-		switch tc.Cause {
-		case "cancel":
-			st.ctx, st.cancel = context.WithCancel(bg)
-		case "deadline":
-			if tc.Moment < 0 {
-				st.ctx, st.cancel = context.WithDeadline(bg, time.Now().Add(-time.Hour))
-			} else {
-				st.ctx, st.cancel = context.WithTimeout(bg, deadlineD)
-			}
-		default:
-			st.ctx, st.cancel = bg, func() {}
-		}
+		// st.cancel fires a cancel-kind cause (no-op for deadline / close kinds)
+		st.ctx, st.cancel, st.cleanup = newCallCtx(tc.Cause, tc.Moment < 0)
 		if done := st.ctx.Done(); done != nil {
 			go func() { // the harness' own watcher: control for "module never became closed"
 				<-done
@@ -383,8 +376,8 @@ func runTicked(tc tcase, keepWasm bool) *tres {
 			}()
 		}
 	}
-	st.cancel = func() {}
-	defer func() { st.cancel() }()
+	st.cancel, st.cleanup = func() {}, func() {}
+	defer func() { st.cleanup() }()
 	// instantiate everything but the entry module
 	var compiled []wazero.CompiledModule
 	for _, mb := range prog.Mods {
@@ -424,7 +417,7 @@ func runTicked(tc tcase, keepWasm bool) *tres {
 		mkctx()
 		if tc.Moment < 0 {
 			res.Fired, res.FiredAt = true, -1
-			switch tc.Cause {
+			switch causeKind(tc.Cause) {
 			case "cancel":
 				st.cancel()
 			case "deadline": // already past
@@ -555,20 +548,8 @@ func runWatchdog(tc tcase, keepWasm bool) *wres {
 		}
 		st.mod = subj
 	}
-	var ctx context.Context
-	cancel := func() {}
-	switch tc.Cause {
-	case "cancel":
-		ctx, cancel = context.WithCancel(bg)
-	case "deadline":
-		if tc.Moment < 0 {
-			ctx, cancel = context.WithDeadline(bg, time.Now().Add(-time.Hour))
-		} else {
-			ctx, cancel = context.WithTimeout(bg, deadlineD)
-		}
-	default:
-		ctx = bg
-	}
+	ctx, cancel, cleanup := newCallCtx(tc.Cause, tc.Moment < 0)
+	_ = cleanup // the child exits after reporting
 	st.ctx, st.cancel = ctx, cancel
 	closeBoth := func() {
 		ctrl.CloseWithExitCode(bg, tc.Code)
@@ -577,7 +558,7 @@ func runWatchdog(tc tcase, keepWasm bool) *wres {
 		}
 	}
 	if tc.Moment < 0 {
-		switch tc.Cause {
+		switch causeKind(tc.Cause) {
 		case "cancel":
 			cancel()
 		case "deadline":
@@ -604,7 +585,7 @@ func runWatchdog(tc tcase, keepWasm bool) *wres {
 	}()
 	if tc.Moment >= 0 {
 		time.Sleep(inflightDelay)
-		switch tc.Cause {
+		switch causeKind(tc.Cause) {
 		case "cancel":
 			cancel()
 		case "deadline": // elapses by itself
